@@ -380,6 +380,21 @@ void *usim_mremap(void *old, size_t oldsz, size_t newsz, int flags, ...)
 		usim_probe("os.mremap_moved");
 		return n;
 	}
+	/*
+	 * Growth is decided at a simulated page size of 64 bytes: with the handful
+	 * of threads a run has, the bp registry (128 bytes per reader) never crosses
+	 * a real 4 KiB page, and "the mapping cannot be extended in place" -- the
+	 * case the library answers with an additional chunk -- would never occur.
+	 */
+	if (((newsz + 63) & ~63UL) > ((oldsz + 63) & ~63UL) && pnew == pold) {
+		if (usim_fault("mremap_inplace_fails", 1, 2)) {
+			usim_probe("os.mremap_failed");
+			errno = ENOMEM;
+			return MAP_FAILED;
+		}
+		usim_probe("os.mremap_inplace");
+		return old;
+	}
 	if (pnew <= pold) {
 		if (pnew < pold)
 			mmap((char *) old + pnew, pold - pnew, PROT_NONE,
